@@ -87,6 +87,19 @@ def direct_cases(tier, seed):
     for (line, s, v) in rng.sample(cases, min(len(cases), n // 5)):
         kind, rest = line.split(" ", 1)
         extra.append(("%sd %s" % (kind, rest), s, v))
+    # input longer than the reader's buffer (8 KiB at a time): characters of 2-4 bytes lying ACROSS the 8192 / 16384 byte
+    # marks, in one long line and in many short lines
+    for d in range(4):
+        s = [0x61] * (8189 + d) + [0xe9, 0x65e5, 0x1f600, 0x62, 0x0a, 0x78, 0x0a]
+        cases.append(("0 %s" % encb(utf8(s)), s, False))
+        if tier == "thorough":       # (the model is quadratic in the length of a line: 10 s each)
+            s = [0x61] * (16381 + d) + [0x1f600, 0xe9, 0x0a]
+            cases.append(("0 %s" % encb(utf8(s)), s, False))
+    for d in range(3 if tier == "thorough" else 1):
+        s = [0x62] * d
+        for k in range(300):          # (the child of the harness reads at most 400 lines)
+            s += [0x65e5, 0x672c, 0xe9, 0x1f600] * 5 + [0x30 + k % 10, 0x0a]
+        cases.append(("0 %s" % encb(utf8(s)), s, False))
     return cases + extra
 
 
